@@ -571,11 +571,52 @@ fn up_oracle(case: &UpCase, obs: &mut Obs) -> Result<(), Fail> {
 	Ok(())
 }
 
+/// one layer with more than 65536 distinct values (`by_key = false`: every feature has the shared
+/// key "kind" and its own value) or keys (`by_key = true`): tables beyond 8- and 16-bit indices
+fn big_layer(n: u32, by_key: bool) -> Tile {
+	let mut keys: Vec<String> = vec!["id".into(), "kind".into()];
+	let mut values: Vec<Value> = vec![Value::Str("tree".into())];
+	let mut features = vec![];
+	for i in 0..n {
+		let (k, v) = if by_key {
+			keys.push(format!("k{i}"));
+			(keys.len() as u32 - 1, 0)
+		} else {
+			values.push(Value::Str(format!("r{i}")));
+			(1, values.len() as u32 - 1)
+		};
+		values.push(Value::Uint(i as u64));
+		// properties: id = i, and the own key (-> "tree") or "kind" -> the own value
+		features.push(mvt::Feature { id: Some(i as u64), tags: vec![0, values.len() as u32 - 1, k, v], geom_type: 1, geometry: vec![9, 2 * (i % 4096), 2 * (i / 4096)] });
+	}
+	Tile { layers: vec![mvt::Layer { name: mvt::LAYER_NAMES[0].to_string(), extent: Some(4096), version: Some(2), keys, values, features }] }
+}
+
+fn big_update_cases() -> Vec<UpCase> {
+	let mut v = vec![];
+	for (by_key, n, remove) in [(false, 70_000u32, None), (true, 66_000, Some(false))] {
+		v.push(UpCase {
+			z: 3,
+			comp: Comp::Gzip,
+			default_stream: false,
+			tiles: vec![(0, 0, big_layer(n, by_key), 0)],
+			csv: Csv { header: vec!["id".into(), "colour".into()], rows: vec![vec!["3".into(), "green".into()], vec!["69999".into(), "red".into()], vec!["a".into(), "x".into()]], crlf: false, final_newline: true, quote_all: false },
+			id_col: 0,
+			layer_name: mvt::LAYER_NAMES[0].to_string(),
+			id_field_tiles: "id".into(),
+			replace: None,
+			remove,
+			include_id: None,
+		});
+	}
+	v
+}
+
 fn main() {
 	let mut check = Check::from_args(
 		"C11",
 		"exploration",
-		"tiles from the harness's own MVT model/encoder (written from the MVT 2.1 layout, not the repository's code): 0-4 layers with distinct names, key/value tables as other encoders write them (duplicate and unused entries, tables before/after/interleaved with the features, defaults written or omitted), values of all seven kinds incl. int vs sint, i64::MIN, magnitudes >= 2^62, u64::MAX, infinities, -0.0, features with/without id (0, 2^63, 2^64-1), geometry types 0-3, opaque geometry words, extents and versions present/absent; never the same key twice in one feature, no NaN values, never +0.0 and -0.0 of one float kind in one case. Phase roundtrip: VectorTile::from_blob -> to_blob, input and output decoded by the harness decoder must agree in layer order, extent, version and per feature id/type/geometry words/property map (tags resolved by table index as written; tables themselves are not compared). Phase update: 1-4 such tiles (>= 1 layer) in an in-memory source (none/gzip/brotli really applied) | vectortiles_update_properties with a generated CSV (unique canonical id cells from {0..6,-1,-2,a-d,'x y',1.5,-2.25,true}; other cells empty/bool/uint/int/double/strings incl. quotes, commas, newlines; quoting, CRLF, final newline varied), every combination of replace_properties/remove_non_matching/include_id written or omitted, layer present/absent, id field present/absent per feature; a feature matches the row whose id cell's canonical text equals the canonical text of the feature's id value (decimal integers, shortest float text, the string, true/false). Oracle on lookups and on the bbox stream (decoded with the declared compression): other layers equal; in the named layer extent/version kept, retained features keep id, type, geometry words and order, removed = exactly the features with an id value without row iff remove_non_matching, properties = row (without the id column unless include_id) when replacing, old + row (row wins) when merging, unchanged otherwise. Non-trivial (update) = a tile with >= 2 layers and >= 1 matched and >= 1 unmatched feature in the named layer; (roundtrip) = a layer with features whose tables hold duplicate or unused entries. Distinct = distinct case value.",
+		"tiles from the harness's own MVT model/encoder (written from the MVT 2.1 layout, not the repository's code): 0-4 layers with distinct names, key/value tables as other encoders write them (duplicate and unused entries, tables before/after/interleaved with the features, defaults written or omitted), values of all seven kinds incl. int vs sint, i64::MIN, magnitudes >= 2^62, u64::MAX, infinities, -0.0, features with/without id (0, 2^63, 2^64-1), geometry types 0-3, opaque geometry words, extents and versions present/absent; plus fixed tiles whose layer has 66 000 distinct keys or 70 000 distinct values; never the same key twice in one feature, no NaN values, never +0.0 and -0.0 of one float kind in one case. Phase roundtrip: VectorTile::from_blob -> to_blob, input and output decoded by the harness decoder must agree in layer order, extent, version and per feature id/type/geometry words/property map (tags resolved by table index as written; tables themselves are not compared). Phase update: 1-4 such tiles (>= 1 layer) in an in-memory source (none/gzip/brotli really applied) | vectortiles_update_properties with a generated CSV (unique canonical id cells from {0..6,-1,-2,a-d,'x y',1.5,-2.25,true}; other cells empty/bool/uint/int/double/strings incl. quotes, commas, newlines; quoting, CRLF, final newline varied), every combination of replace_properties/remove_non_matching/include_id written or omitted, layer present/absent, id field present/absent per feature; a feature matches the row whose id cell's canonical text equals the canonical text of the feature's id value (decimal integers, shortest float text, the string, true/false). Oracle on lookups and on the bbox stream (decoded with the declared compression): other layers equal; in the named layer extent/version kept, retained features keep id, type, geometry words and order, removed = exactly the features with an id value without row iff remove_non_matching, properties = row (without the id column unless include_id) when replacing, old + row (row wins) when merging, unchanged otherwise. Non-trivial (update) = a tile with >= 2 layers and >= 1 matched and >= 1 unmatched feature in the named layer; (roundtrip) = a layer with features whose tables hold duplicate or unused entries. Distinct = distinct case value.",
 	);
 	check.assume("harness MVT codec (self-checked on every case: decode(encode(t)) == t); flate2/brotli as reference decompressors; typing of CSV cells modelled from the documented rule (digit strings within 64 bits only); Rust's float Display as the canonical float text");
 	vt::engine::watchdog(3600);
@@ -584,6 +625,13 @@ fn main() {
 	check.enumerate("regressions-roundtrip", reg, false, rt_oracle);
 	let reg: Vec<UpCase> = check.regression_cases("update");
 	check.enumerate("regressions-update", reg, false, up_oracle);
+
+	// tables with more than 65536 entries (one layer of 66 000 / 70 000 features)
+	let w = check.workers;
+	check.workers = 2;
+	check.enumerate("roundtrip-big-tables", vec![RtCase { tile: big_layer(70_000, false), layout: 0 }, RtCase { tile: big_layer(66_000, true), layout: 7 }], false, rt_oracle);
+	check.enumerate("update-big-tables", big_update_cases(), false, up_oracle);
+	check.workers = w;
 
 	check.phase("roundtrip", check.cases(400_000, 4_000_000), rt_strategy, rt_oracle);
 	check.phase("update", check.cases(150_000, 1_500_000), up_strategy, up_oracle);
